@@ -202,18 +202,26 @@ def runProg (w : World) (c v : Nat) (a : Args) : Prog → World × Res
 
 /-! ### the copy-on-write discipline (static, decidable) -/
 
-/-- every in-place mutation targets a register that was assigned a freshly allocated object
-(`copy`, literal, slice) earlier in the same call and not re-bound to a shared one since -/
+/-- an in-place mutation is allowed only on an owned register -/
+def opOk (o : List Reg) : Op → Bool
+  | .setItem r => o.contains r
+  | .delItem r => o.contains r
+  | .append r => o.contains r
+  | _ => true
+
+/-- registers known to hold an object allocated in this call: assigned from `copy`, a literal or a
+slice, and not re-bound to the (possibly shared) context payload since -/
+def ownedAfter (o : List Reg) : Op → List Reg
+  | .load d _ => o.filter (· != d)
+  | .copy d _ => d :: o
+  | .fresh d _ => d :: o
+  | .sliceInit d _ => d :: o
+  | _ => o
+
+/-- every in-place mutation on the path targets an owned register -/
 def cbwPath : List Reg → Path → Bool
   | _, [] => true
-  | o, .load d _ :: t => cbwPath (o.filter (· != d)) t
-  | o, .copy d _ :: t => cbwPath (d :: o) t
-  | o, .fresh d _ :: t => cbwPath (d :: o) t
-  | o, .sliceInit d _ :: t => cbwPath (d :: o) t
-  | o, .setItem r :: t => o.contains r && cbwPath o t
-  | o, .delItem r :: t => o.contains r && cbwPath o t
-  | o, .append r :: t => o.contains r && cbwPath o t
-  | o, _ :: t => cbwPath o t
+  | o, op :: t => opOk o op && cbwPath (ownedAfter o op) t
 
 def cbwProg (p : Prog) : Bool := p.all (cbwPath [])
 
